@@ -14,6 +14,7 @@ import (
 	"errors"
 	"fmt"
 	"io"
+	"slices"
 )
 
 // A keyAgreement implements the client and server side of a TLS 1.0–1.2 key
@@ -296,6 +297,14 @@ func (ka *ecdheKeyAgreement) processServerKeyExchange(config *Config, clientHell
 	if _, ok := curveForCurveID(curveID); !ok {
 		return errors.New("tls: server selected unsupported curve")
 	}
+	// [UTLS SECTION START]
+	// The curve must be one the ClientHello offered in supported_groups
+	// (RFC 8422, Section 5.4). With uTLS the offer comes from the spec, not
+	// from Config.CurvePreferences.
+	if len(clientHello.supportedCurves) > 0 && !slices.Contains(clientHello.supportedCurves, curveID) {
+		return errors.New("tls: server selected unoffered curve")
+	}
+	// [UTLS SECTION END]
 
 	key, err := generateECDHEKey(config.rand(), curveID)
 	if err != nil {
